@@ -15,11 +15,17 @@ def run(ctx):
     ctx.prove()
     h = ctx.build_harness("h_par")
     if ctx.tier == "quick":
-        ctx.pipe([h, "ops", "3", "17", "32"], "par", label="operators")
+        # the three residues of ntheta mod 3 are three different ladders of the 3-colour scatter schedules
+        ctx.pipe([h, "ops", "2", "17", "32"], "par", label="operators")
+        ctx.pipe([h, "ops", "2", "13", "24"], "par", label="operators-ntheta-div-3")
+        ctx.pipe([h, "ops", "1", "9", "16"], "par", label="operators-ntheta-1-mod-3")
         ctx.pipe([h, "vec"], "par", label="vector-kernels")
         ctx.pipe([h, "solve", "3"], "par", label="solves")
     else:
         ctx.pipe([h, "ops", "20", "17", "32"], "par", label="operators")
+        ctx.pipe([h, "ops", "10", "13", "24"], "par", label="operators-ntheta-div-3")
+        ctx.pipe([h, "ops", "6", "9", "16"], "par", label="operators-ntheta-1-mod-3")
+        ctx.pipe([h, "ops", "3", "33", "48"], "par", label="operators-33x48")
         ctx.pipe([h, "ops", "3", "65", "256"], "par", label="operators-above-threshold")
         ctx.pipe([h, "vec"], "par", label="vector-kernels")
         ctx.pipe([h, "solve", "30"], "par", label="solves")
